@@ -1,6 +1,6 @@
 #!/usr/bin/env python3
-"""Self-test: apply hand-written source mutants (DESIGN.md appendix A) to /repo one at a time, run the check of the
-property each one breaks, restore the tree (git checkout).  Reports which mutants are caught.
+"""Self-test: apply hand-written source mutants (DESIGN.md appendix A) one at a time to a scratch worktree of /repo HEAD
+(outside /repo and /verif, removed afterwards), run the check of the property each one breaks against it (CGV_REPO), restore.  Reports which mutants are caught.
 
 usage: tools/selftest.py [Cxx ...] [--tier quick]      (no ids = all)
 Each mutant is (property, file, old text, new text); the old text must occur exactly once.
@@ -100,15 +100,16 @@ def sh(cmd, cwd=None, timeout=7200):
 def main():
     ids = [a for a in sys.argv[1:] if re.match(r"C\d+", a)]
     tier = sys.argv[sys.argv.index("--tier") + 1] if "--tier" in sys.argv else "quick"
-    rc, st = sh("git -C /repo status --porcelain")
-    assert not st.strip(), "/repo has uncommitted changes"
+    WT = "/tmp/selftest_wt"
+    sh(f"git -C /repo worktree remove --force {WT}")
+    rc, st = sh(f"git -C /repo worktree add -q {WT} HEAD")
     results = []
     for pid, path, old, new, label in M:
         if ids and pid not in ids:
             continue
         if "skip" in label:
             continue
-        full = os.path.join("/repo", path)
+        full = os.path.join(WT, path)
         src = open(full).read()
         if src.count(old) != 1:
             results.append((pid, label, "MUTANT-NOT-APPLICABLE", src.count(old)))
@@ -116,14 +117,15 @@ def main():
             continue
         try:
             open(full, "w").write(src.replace(old, new))
-            rc_t, out_t = sh("/venv/bin/python -m pytest -q -p no:cacheprovider tests", cwd="/repo")
+            rc_t, out_t = sh("/venv/bin/python -m pytest -q -p no:cacheprovider tests", cwd=WT)
             tests = out_t.strip().split("\n")[-1]
-            rc, out = sh(f"./check {pid} --tier {tier}", cwd="/verif")
+            rc, out = sh(f"CGV_REPO={WT} CGV_NO_EVIDENCE=1 ./check {pid} --tier {tier}", cwd="/verif")
             what = re.findall(r"what: (.*)", out)
             results.append((pid, label, {0: "MISSED", 1: "CAUGHT", 2: "HARNESS-ERROR"}.get(rc, rc), tests[:40], (what[:1] or [out.strip().split("\n")[-1]])[0][:160]))
         finally:
-            sh("git -C /repo checkout -- .")
+            sh(f"git -C {WT} checkout -- .")
         print(results[-1], flush=True)
+    sh(f"git -C /repo worktree remove --force {WT}")
     caught = sum(1 for r in results if r[2] == "CAUGHT")
     print(f"caught {caught} of {len([r for r in results if r[2] != 'MUTANT-NOT-APPLICABLE'])}")
     os.makedirs("/verif/out", exist_ok=True)
